@@ -237,6 +237,7 @@ func (w *advWorld) buildProduct(c advCase) (world.ClientSpec, advVerdict, bool) 
 	k, node := identityOf(w, c.Identity)
 	var chain [][]byte
 	var leafRoot *types.RootCertificate
+	var stackedSigner ed25519.PrivateKey
 	now := time.Now()
 	switch c.Cert {
 	case "cur", "next":
@@ -269,6 +270,27 @@ func (w *advWorld) buildProduct(c advCase) (world.ClientSpec, advVerdict, bool) 
 		if len(chain) == 0 {
 			return world.ClientSpec{}, v, false
 		}
+	case "stacked-ca", "stacked-leaf":
+		// the peer's own certificate first (TLS proves possession of that one only), a registered
+		// node's genuine chain behind it: public material, no root-certified key is held
+		if node == nil {
+			return world.ClientSpec{}, v, false
+		}
+		i := 0
+		leafRoot = w.roots.Current
+		if !rootValidNow(w.roots.Current) {
+			i, leafRoot = 1, w.roots.Next
+		}
+		b := node.Creds.CertificateBundles[i]
+		own := world.NewKeys()
+		stackedSigner = own.Priv
+		var first []byte
+		if c.Cert == "stacked-ca" {
+			first = world.MintSelfSigned(own, world.LeafSpec{SubjectKeyID: own.Pkix, CommonName: own.KeyID, DNSNames: []string{own.KeyID}, EKU: []x509.ExtKeyUsage{x509.ExtKeyUsageClientAuth}, NotBefore: now.Add(-time.Hour), NotAfter: now.Add(24 * time.Hour)})
+		} else {
+			first = world.MintLeaf(w.foreign.cert, w.foreign.root.Priv, own.Pub, world.LeafSpec{SubjectKeyID: own.Pkix, CommonName: own.KeyID, DNSNames: []string{own.KeyID}, EKU: []x509.ExtKeyUsage{x509.ExtKeyUsageClientAuth}, NotBefore: now.Add(-time.Hour), NotAfter: now.Add(24 * time.Hour)})
+		}
+		chain = [][]byte{first, b.CertificateDer, b.CaCertificateDer}
 	}
 	var signer crypto.Signer = k.Priv
 	holds := c.HoldsKey && c.Cert != "serverauth" // nobody outside the server holds the key of a server-minted certificate
@@ -279,6 +301,10 @@ func (w *advWorld) buildProduct(c advCase) (world.ClientSpec, advVerdict, bool) 
 	}
 	if !c.HoldsKey {
 		signer = world.NewKeys().Priv
+	}
+	if stackedSigner != nil {
+		// the key of the first certificate: the handshake itself succeeds, but no key certified by a root is proven
+		signer, holds = stackedSigner, false
 	}
 	nonce := world.RandBytes(nodeenrollment.NonceSize)
 	var nonceSigner ed25519.PrivateKey
@@ -856,7 +882,7 @@ func runTLSAdv(c *engine.Ctx) engine.Result {
 	for _, wn := range []string{"normal", "both", "expired"} {
 		for _, st := range []string{world.Inmem, world.Ordered} {
 			for _, id := range []string{"A", "R", "U"} {
-				for _, cert := range []string{"cur", "next", "otherleaf", "foreign", "selfsigned", "serverauth"} {
+				for _, cert := range []string{"cur", "next", "otherleaf", "foreign", "selfsigned", "serverauth", "stacked-ca", "stacked-leaf"} {
 					if id == "U" && (cert == "cur" || cert == "next") {
 						continue
 					}
